@@ -351,7 +351,10 @@ where
                                     }
                                 }
                             },
-                            Some((author, log_ranges)) = remote_needs.next().instrument(span.clone()) => {
+                            // Do not send anything anymore after we've told the remote that we're done. This
+                            // can happen if we've sent "Done" already in the pre-sync phase (nothing to send)
+                            // but the store changed concurrently.
+                            Some((author, log_ranges)) = remote_needs.next().instrument(span.clone()), if !sync_done_sent => {
                                 for (log_id, (after, until)) in log_ranges {
                                     // Get all entries from the log we should send to the remote.
                                     let Some(result) = self
